@@ -110,6 +110,9 @@ pub fn run_scenarios(
                        "trace": v.trace.iter().map(|t| format!("t{} {} fd{} obj{:x}.{} len{} -> {}", t.task, t.call, t.fd, t.obj, t.end, t.len, t.res)).collect::<Vec<_>>()}),
             );
         }
+        if std::env::var("VC_VERBOSE").is_ok() {
+            eprintln!("scenario {} bound {}: schedules {} by_deviations {:?} states {} outcomes {} max_points {} capped {}", sc.name, sc.bound, st.execs, st.by_cost, st.states.len(), st.outcomes.len(), st.max_points, st.capped);
+        }
         if per.len() < 400 {
             per.push(json!({"scenario": sc.name, "bound": sc.bound, "schedules": st.execs, "by_deviations": st.by_cost,
                             "states": st.states.len(), "transitions": st.transitions, "distinct_outcomes": st.outcomes.len(),
